@@ -1,15 +1,101 @@
 package main
 
-import "go/token"
+import (
+	"fmt"
+	"go/token"
+	"strings"
+)
 
-// Permission checks for lock-guarded state (filled in by the concurrent mode).
+// Lock protocol.
+//
+// A `lock <mutex expr> : none|R|W` clause states in which mode the function's caller holds that mutex, at
+// entry and again at exit (balanced). A function without clauses is called with no container lock held.
+// HELD : mutex address -> {0 free, 1 read-locked, 2 write-locked} (by the current call chain).
 
-func (ex *Exec) permCheck(compKey, ref string, write bool)           {}
-func (ex *Exec) permCheckElem(compKey, arr string, write bool)       {}
-func (ex *Exec) permCheckMap(mk mapKeys, m string, write bool)       {}
-func (ex *Exec) afterAcquire(mu string, mode int, pos token.Pos)     {}
-func (ex *Exec) beforeRelease(mu string, mode int, pos token.Pos)    {}
-func (ex *Exec) lockCallProtocol(spec *FuncSpec, ev *Eval, pos token.Pos, name string) {}
+type lockClause struct {
+	expr Expr
+	mode int // 0 none, 1 R, 2 W
+	text string
+}
 
-func (ex *Exec) lockEntry(spec *FuncSpec, ev *Eval)                    {}
-func (ex *Exec) lockExit(spec *FuncSpec, st *State, exitReach string) {}
+func parseLockClauses(spec *FuncSpec, vc *VC) []lockClause {
+	var out []lockClause
+	for _, c := range spec.Lock {
+		k := strings.LastIndex(c.Text, ":")
+		if k < 0 {
+			vc.errorf("%s: lock clause needs '<mutex> : none|R|W'", c.Src)
+			continue
+		}
+		e, err := parseExpr(c.Text[:k])
+		if err != nil {
+			vc.errorf("%s: %v", c.Src, err)
+			continue
+		}
+		mode := -1
+		switch strings.TrimSpace(c.Text[k+1:]) {
+		case "none":
+			mode = 0
+		case "R":
+			mode = 1
+		case "W":
+			mode = 2
+		}
+		if mode < 0 {
+			vc.errorf("%s: lock mode must be none, R or W", c.Src)
+			continue
+		}
+		out = append(out, lockClause{e, mode, c.Text})
+	}
+	return out
+}
+
+func (ev *Eval) mutexAddr(e Expr) string {
+	x := ev.eval(e)
+	return x.T
+}
+
+func (ex *Exec) lockEntry(spec *FuncSpec, ev *Eval) {
+	held := "((as const (Array Int Int)) 0)"
+	for _, lc := range parseLockClauses(spec, ex.vc) {
+		if lc.mode > 0 {
+			held = sSto(held, ev.mutexAddr(lc.expr), fmt.Sprint(lc.mode))
+		}
+	}
+	ex.vc.assume(sEq(ex.get(ex.curState, "HELD", "(Array Int Int)"), held))
+}
+
+func (ex *Exec) lockExit(spec *FuncSpec, st *State, exitReach string) {
+	if _, used := st.m["HELD"]; !used {
+		return
+	}
+	ex.vc.oblige("lock.balanced", "lock", ex.fn.Pos(), exitReach, sEq(ex.get(st, "HELD", "(Array Int Int)"), ex.get(ex.entry, "HELD", "(Array Int Int)")),
+		"every lock taken is released on every path, and nothing the caller holds is released")
+}
+
+// lockCallProtocol: the caller must hold the callee's mutexes exactly as the callee's lock clauses say.
+func (ex *Exec) lockCallProtocol(spec *FuncSpec, ev *Eval, pos token.Pos, name string) {
+	held := ex.get(ex.curState, "HELD", "(Array Int Int)")
+	for _, lc := range parseLockClauses(spec, ex.vc) {
+		cur := sSel(held, ev.mutexAddr(lc.expr))
+		switch lc.mode {
+		case 0:
+			ex.vc.oblige("lock.call."+name+".free", "lock", pos, ex.curReach, sEq(cur, "0"), "callee "+name+" acquires "+strings.TrimSpace(lc.text)+": it must not be held here (self-deadlock)")
+		case 1, 2:
+			// an object created during this call and not yet published is thread-local: its lock need not be held
+			local := sNot(sSel(ex.get(ex.entry, "alloc", "(Array Int Bool)"), "(rootOf "+ev.mutexAddr(lc.expr)+")"))
+			need := "(>= " + cur + " 1)"
+			if lc.mode == 2 {
+				need = sEq(cur, "2")
+			}
+			ex.vc.oblige("lock.call."+name+".held", "lock", pos, ex.curReach, sOr(need, local), "callee "+name+" needs "+strings.TrimSpace(lc.text)+" (or an object that is still local to this call)")
+		}
+	}
+}
+
+// Permission checks for lock-guarded state (concurrent mode).
+
+func (ex *Exec) permCheck(compKey, ref string, write bool)        {}
+func (ex *Exec) permCheckElem(compKey, arr string, write bool)    {}
+func (ex *Exec) permCheckMap(mk mapKeys, m string, write bool)    {}
+func (ex *Exec) afterAcquire(mu string, mode int, pos token.Pos)  {}
+func (ex *Exec) beforeRelease(mu string, mode int, pos token.Pos) {}
